@@ -16,6 +16,6 @@ git apply "$sd/patch.diff" || { echo "$id: patch does not apply"; exit 2; }
 build=$(go build $(go list ./... | grep -v '/out') 2>&1 | head -2)
 suite=$(go test -vet=off -count=1 $(go list ./... | grep -v '/out') 2>&1 | grep -v "^ok\|no test files" | head -3)
 cp "$sd/demo_test.go" "$pkgdir/zz_seed_demo_test.go"
-with=$(timeout 120 go test -vet=off -count=1 -run 'TestSeedDemo' "./$pkgdir" 2>&1 | grep -m1 -E '^(FAIL|ok|panic|---)' | cut -c1-80)
+with=$(timeout 120 go test -vet=off -count=1 -run 'TestSeedDemo' "./$pkgdir" 2>&1 | grep -a -m1 -E '^(FAIL|ok|panic|---)' | cut -c1-80)
 rm -f "$pkgdir/zz_seed_demo_test.go"; git checkout -q -- .
 echo "$id: clean=[$clean] build=[$build] suite_failures=[$suite] with_patch=[$with]"
